@@ -279,7 +279,11 @@ fn hash_bundle(b: &BundleState, h: &mut impl Hasher) {
     for block in n.reverts.iter() {
         for (a, r) in block {
             let st: BTreeMap<_, _> = r.storage.iter().map(|(k, v)| (*k, *v)).collect();
-            format!("{a:?}/{:?}/{:?}/{:?}/{st:?}", r.account, r.previous_status, r.wipe_storage).hash(h);
+            let acct = match &r.account {
+                revm_database::states::reverts::AccountInfoRevert::RevertTo(i) => format!("RevertTo({:?})", (i.balance, i.nonce, i.code_hash)),
+                other => format!("{other:?}"),
+            };
+            format!("{a:?}/{acct}/{:?}/{:?}/{st:?}", r.previous_status, r.wipe_storage).hash(h);
         }
         "|".hash(h);
     }
